@@ -7,7 +7,10 @@
 (* on hand-built envelopes) and evaluates the C19 monitors on them:        *)
 (*   ClassifiedAsRouted        receiver's class = library's routing flag   *)
 (*   DistinctRounds            distinct broadcast-class types, one phase   *)
-(*   ClassifiedAlike           one answer per type, whoever classifies     *)
+(*   ClassifiedAlike           one answer per type, whoever classifies and *)
+(*                             however the sender encoded it               *)
+(*   ClassificationFollowsLibrary  a hand-crafted encoding is classified   *)
+(*                             as the type the library processes it as     *)
 (*   SenderAttribution         every hand-over to the library is attributed*)
 (*                             to a sender OnMsg was called with, in order *)
 (*   EmbeddedMismatchDropped   an envelope embedding another sender is not *)
@@ -128,6 +131,24 @@ TclsEv ==
                  ELSE IF Line.k = "unknown" /\ (Line.err \/ Line.r # 0 \/ Line.bc) THEN "unknown type not classified as (0, point-to-point)"
                  ELSE IF Line.k = "garbage" /\ ~Line.err /\ (Line.r # 0 \/ Line.bc) THEN "garbage classified as a protocol message"
                  ELSE "")
+  /\ UNCHANGED <<tid, hdr, emits, ons, hs, pw, rets, pks, sigs, pan, fs>>
+
+\* a hand-crafted encoding (spec/Adapters.tla, "encodings"): ClassifyMsg on the bytes, and what the library made of the same bytes
+EncEv ==
+  /\ Line.e = "enc"
+  /\ LET tb == TableOf(Line.ad)
+         c == ClassifyIn(tb, Line.lt)              \* what the table prescribes for the type the library processes
+         accepted == Line.lobs /\ ~Line.lrej
+         want == Classified(Line.items)
+         wantLib == LibraryType(Line.items)
+         wc == ClassifyIn(tb, IF want = "real" THEN Line.ty ELSE IF want = "decoy" THEN Line.dc ELSE "?")
+         clsAsModel == IF want = "reject" THEN Line.err ELSE ~Line.err /\ Line.r = wc.round /\ Line.bc = wc.bcast
+         libAsModel == IF wantLib = "reject" THEN Line.lrej ELSE ~Line.lrej /\ Line.lt = (IF wantLib = "real" THEN Line.ty ELSE Line.dc) IN
+     /\ Report({<<"ClassificationFollowsLibrary", Line.ty, accepted => (~Line.err /\ Line.r = c.round /\ Line.bc = c.bcast)>>})
+     /\ obs' = IF accepted /\ c.known /\ ~Line.err THEN obs \cup {[url |-> Line.lt, r |-> Line.r, bc |-> Line.bc]} ELSE obs
+     /\ SetDrift(IF ~Line.lobs THEN "what the library made of a hand-crafted encoding could not be observed"
+                 ELSE IF ~libAsModel THEN "the library reads a hand-crafted encoding differently from the encodings model"
+                 ELSE IF ~clsAsModel THEN "a hand-crafted encoding is classified differently from the encodings model" ELSE "")
   /\ UNCHANGED <<tid, hdr, emits, ons, hs, pw, rets, pks, sigs, pan, fs>>
 
 OnEv ==
@@ -275,6 +296,6 @@ FEndEv ==
 TNext == /\ l <= Len(Trace)
          /\ l' = l + 1
          /\ UNCHANGED vars
-         /\ \/ Reset \/ EmitEv \/ ClsEv \/ TclsEv \/ OnEv \/ HandedEv \/ RetEv \/ PkEv \/ SigEv \/ PanicEv \/ WarnEv \/ OtherEv \/ EndEv
+         /\ \/ Reset \/ EmitEv \/ ClsEv \/ TclsEv \/ EncEv \/ OnEv \/ HandedEv \/ RetEv \/ PkEv \/ SigEv \/ PanicEv \/ WarnEv \/ OtherEv \/ EndEv
             \/ FResetEv \/ FCtxEv \/ FRetEv \/ FMiscEv \/ FEndEv
 =============================================================================
